@@ -495,6 +495,9 @@ func checkC15(w *World, r *Report) {
 			"unchecked assertion at "+bad+": any message addressed to the writer's PID kills the node")
 	}
 	checkReaderDelivery(w, r, a, "C15.R7")
+	if r.Prop == "C15" {
+		checkSenderFresh(w, r, "C15.R7") // "with its sender": the receiving actor's Context shows the sender of this delivery, nil included
+	}
 	checkReaderStateless(w, r, a, "C15.R7")
 	checkPeerIndexGuards(w, r, a, "C15.R7") // (each index is checked against its own table: an honest batch is never rejected)
 	// the reader resolves targets by ID alone (the address in a PID may be another spelling of this node)
@@ -993,6 +996,9 @@ func checkC16(w *World, r *Report) {
 		// the inbox keeps its processer while a worker may still be inside the loop (C02.R5: the processer is published in the
 		// starting window and by nobody else): a connection that drops stops the writer's inbox from another goroutine
 		importRules(w, r, checkC02, "C02", "C16.R6", func(o *Obligation) bool { return o.Rule == "C02.R5" })
+		// an inbound message for an id nobody holds becomes one dead letter through BroadcastEvent (which tolerates an
+		// event stream that does not exist yet), not a recursion (C09.R1, C09.R6)
+		importRules(w, r, checkC09, "C09", "C16.R6", func(o *Obligation) bool { return o.Rule == "C09.R1" || o.Rule == "C09.R6" })
 		// a response process is registered like any other: a peer can answer a pending request with any type. What comes
 		// out of Response.Result is asserted with comma-ok everywhere in the library.
 		{
@@ -1235,6 +1241,57 @@ func checkC17(w *World, r *Report) {
 		}
 		r.Check(len(others) == 0, "C17.R1", "streamWriter.inbox:fed-by-Send-only", "only streamWriter.Send enqueues into the writer's inbox", w.fnPos(a.wSend),
 			"also enqueued by "+strings.Join(others, "; ")+": deliveries put back into the inbox travel behind later ones")
+	}
+	// the configured buffer size bounds what a peer may send in one packet, on both ends of a connection: the server
+	// side (Remote.Start) and the client side (the writer's dial) hand it to the same drpc option, the reader's maximum
+	{
+		type site struct {
+			fn   *ssa.Function
+			ctor string
+			want string
+		}
+		okB := true
+		detail := ""
+		n := 0
+		for _, st := range []site{{w.Method("remote", "Remote", "Start"), "drpcserver.NewWithOptions", "P0.config.BuffSize"}, {a.wInit, "drpcconn.NewWithOptions", "P0.buffSize"}} {
+			if st.fn == nil {
+				continue
+			}
+			for _, in := range w.insOf(st.fn) {
+				sto, ok := in.(*ssa.Store)
+				if !ok {
+					continue
+				}
+				fa, ok := sto.Addr.(*ssa.FieldAddr)
+				if !ok {
+					continue
+				}
+				// the chain of field names down to the stored field, e.g. Manager.Reader.MaximumBufferSize
+				var chain []string
+				for cur := fa; cur != nil; {
+					_, sN := structOf(cur.X.Type())
+					if sN == nil || cur.Field >= sN.NumFields() {
+						break
+					}
+					chain = append([]string{sN.Field(cur.Field).Name()}, chain...)
+					next, isFA := cur.X.(*ssa.FieldAddr)
+					if !isFA {
+						break
+					}
+					cur = next
+				}
+				if len(chain) == 0 || chain[len(chain)-1] != "MaximumBufferSize" {
+					continue
+				}
+				n++
+				if strings.Join(chain, ".") != "Manager.Reader.MaximumBufferSize" || w.pathOf(sto.Val) != st.want {
+					okB = false
+					detail = fname(st.fn) + " sets " + strings.Join(chain, ".") + " = " + w.pathOf(sto.Val)
+				}
+			}
+		}
+		r.Check(okB && n == 2, "C17.R1", "Remote:buffer-size-both-ends", "the configured buffer size is the reader's maximum packet size on the listening and on the dialling side", w.fnPos(a.wInit),
+			detail+": one end keeps drpc's default limit, a batch the other end is allowed to send ends the connection with a data overflow while the peer is up")
 	}
 	// R2 and R4: the router (rules_remote2.go)
 	checkRouter(w, r, eSend)
@@ -1561,6 +1618,13 @@ func checkC17(w *World, r *Report) {
 	importRules(w, r, checkC14, "C14", "C17.R8", func(o *Obligation) bool {
 		return o.Rule == "C14.R1" || o.Rule == "C14.R2" || o.Rule == "C14.R3" || o.Rule == "C14.R4" || o.Rule == "C14.R5"
 	})
+	if r.Prop == "C17" {
+		// ... and each of those inboxes is drained by one worker at a time (the writer's, the target actor's): order and
+		// exactly-once on the receiving side (C02.R1-R4)
+		importRules(w, r, checkC02, "C02", "C17.R8", func(o *Obligation) bool {
+			return o.Rule == "C02.R1" || o.Rule == "C02.R2" || o.Rule == "C02.R3" || o.Rule == "C02.R4"
+		})
+	}
 	// R5
 	{
 		rstart := w.Method("remote", "Remote", "Start")
